@@ -793,7 +793,8 @@ class AnsiString:
             obj = self.copy()
 
             # This will allow a colon to be a fill character based on the expected format
-            format_match = re.match(r'(^.?[-\+]?[<>\^]?[0-9]*)(:.*)?$', format_spec)
+            # (a fill character and a sign are only part of the string format in front of an alignment character)
+            format_match = re.match(r'(^(?:.?[-\+]?[<>\^])?[0-9]*)(:.*)?$', format_spec)
 
             if not format_match:
                 format_parts = [format_spec]
